@@ -160,7 +160,10 @@ class _BaseLayout(MaildirLayout[_MaildirT], metaclass=ABCMeta):
             # Every part becomes (part of) a directory name below the inbox,
             # it must not be able to refer to anything outside of it.
             if part in ('', '.', '..') or '\0' in part or os.sep in part \
-                    or (os.altsep is not None and os.altsep in part):
+                    or (os.altsep is not None and os.altsep in part) \
+                    or '\r' in part or '\n' in part:
+                # CR and LF cannot be kept in the line-based subscriptions
+                # file
                 raise FileNotFoundError(name)
             try:
                 os.fsencode(part)
